@@ -102,6 +102,10 @@ class MultiMomentGaugeTransformer(abc.ABC):
                     has_target_gates = True
                 elif op not in self.supported_gates:
                     return False
+            else:
+                # An operation without a gate (classically controlled operation, circuit
+                # operation) cannot be commuted with the gauge: do not gauge this moment.
+                return False
         return has_target_gates
 
     def __call__(
